@@ -45,6 +45,17 @@ def run(tier):
     chk.assumptions = [META["note"]]
     recs, verdicts, states, trans = lifecycle.record_and_judge("c01", tier)
     chk.states, chk.transitions = states, trans
+    if tier == "thorough":
+        # exhaustive sub-space: all 65536 byte pairs in each of five positions
+        r2, v2, s2, t2 = lifecycle.sweep("c01")
+        off = len(recs)
+        for v in v2:
+            v["i"] += off
+        recs, verdicts = recs + r2, verdicts + v2
+        chk.states += s2
+        chk.transitions += t2
+        chk.extra["byte_pair_sweep_documents"] = sum(1 for r in r2 if r["ev"] == "Save")
+        chk.extra["byte_pair_sweep_exhaustive"] = True
     last_save = None
     for v in verdicts:
         rec = recs[v["i"]]
